@@ -99,17 +99,18 @@ def check_loop(func, loop, p, frozen=()):
     """list of (kind, node, text) order dependences of one loop"""
     problems = []
     body = loop.body
-    end = getattr(loop, 'end_lineno', loop.lineno)
+    in_loop = {id(n) for n in ast.walk(loop)}
+    sq = U.seq(func)
     # names whose loop-body value can still be read after the loop is left
     outside_reads = live_after(func, loop)
     if outside_reads is None:
         outside_reads = set()
         for n in U.walk_no_nested(func):
-            if isinstance(n, ast.Name) and isinstance(n.ctx, ast.Load) and not (loop.lineno <= n.lineno <= end):
+            if isinstance(n, ast.Name) and isinstance(n.ctx, ast.Load) and id(n) not in in_loop:
                 outside_reads.add(n.id)
     assigned_before = set()
     for n in U.walk_no_nested(func):
-        if isinstance(n, ast.Name) and isinstance(n.ctx, ast.Store) and n.lineno < loop.lineno:
+        if isinstance(n, ast.Name) and isinstance(n.ctx, ast.Store) and sq.get(id(n), 0) < sq[id(loop)]:
             assigned_before.add(n.id)
     params = {x.lstrip('*') for x in U.params(func)}
     reduced = set()
